@@ -83,7 +83,9 @@ def dedupeRefs (refs : List Ref) (idx : Nat) (ref : Ref) : List Ref :=
 def storeResponse (cfg : Cfg) (reqH : Header) (r : Resp) (bodyOk : Bool) (key : Str) (refs : List Ref)
     (reqT respT : Int) (refIndex : Option Nat) (k : Resp → Prog) : Prog :=
   let r' := respWith r (removeHopByHop r.header)
-  let vary := joinWith [',', ' '] (Header.values r'.header sVary)
+  let vary0 := joinWith [',', ' '] (Header.values r'.header sVary)
+  -- a Vary value with a "*" member is recorded as "*": one variant, however it is spelled
+  let vary := if varyHasWildcard vary0 then ['*'] else vary0
   let resolved := normalizeVary cfg.normQ vary reqH
   let id := makeVaryKey key resolved
   let entry : Entry := { id := id, requestedAt := reqT, receivedAt := respT, resp := r' }
